@@ -25,9 +25,9 @@ class SymList:
         self.kind = kind
 
     @staticmethod
-    def fresh_str_list(st, prefix, nonempty=False, not_containing=None):
-        n = fresh(prefix + "_len", INT)
-        f = z3.Function(f"{prefix}_elem!{n}", INT, STR)
+    def fresh_str_list(st, prefix, nonempty=False, not_containing=None, n=None, elem=None):
+        n = fresh(prefix + "_len", INT) if n is None else n
+        f = z3.Function(f"{prefix}_elem!{n}", INT, STR) if elem is None else elem
         st.assume(n >= (1 if nonempty else 0))
         sl = SymList(n, lambda i: VStr(f(i)), "str")
         sl.not_containing = not_containing
@@ -90,12 +90,13 @@ class LoopSpec:
     vars: names of the program variables the invariant reads;
     havoc: optional callable (eng, st) that havocs heap state modified by the body."""
 
-    def __init__(self, inv_fn, vars, havoc=None, name="inv", lists=None):
+    def __init__(self, inv_fn, vars, havoc=None, name="inv", lists=None, variant=None):
         self.inv_fn = inv_fn
         self.vars = list(vars)
         self.havoc = havoc
         self.name = name
         self.lists = dict(lists or {})  # name -> tuple arity (0 = scalars) of lists that the body mutates
+        self.variant = variant  # while loops: python def (k, <vars>) -> int that decreases on every back edge and stays >= 0 (termination)
 
 
 def assigned_names(stmts):
@@ -306,8 +307,84 @@ def _with_invariant(eng, stmt, st, it):
     return outs
 
 
+def _while_with_invariant(eng, stmt, st, spec, key):
+    """while loop cut at its head: (1) the invariant holds on entry; (2) from an arbitrary state satisfying it, one
+    evaluation of the test and one execution of the body re-establishes it (paths that leave through break / return /
+    raise continue after the loop with what is known on them); the exit through a false test carries the invariant."""
+    clauses = spec.inv_fn if isinstance(spec.inv_fn, (list, tuple)) else [spec.inv_fn]
+    k = fresh("iter", INT)
+
+    def get(s, v):
+        if not v.startswith("ghost:"):
+            return eng.lookup(s, v)
+        g = s.ghost[v[6:]]
+        return VInt(g) if isinstance(g, z3.ExprRef) else g
+
+    def inv_at(s):
+        args = [VInt(k)] + [get(s, v) for v in spec.vars]
+        return [(getattr(f, "__name__", "inv"), eval_pred(eng, s, f, args)) for f in clauses]
+
+    def oblige(s, phase):
+        for cname, t in inv_at(s):
+            s.obligations.append((f"{key}#{spec.name}.{phase}" + (f".{cname}" if len(clauses) > 1 else ""), t))
+
+    oblige(st, "init")
+    mods = [m for m in assigned_names(stmt.body) if m in st.env]
+    for m in mutated_lists(stmt.body):
+        if m in st.env and m not in mods:
+            mods.append(m)
+    body_st = st.fork()
+    for m in mods:
+        if m in spec.lists:
+            from .ulist import SymSeq, new_list
+
+            body_st.env[m] = new_list(body_st, SymSeq.fresh(body_st, "h_" + m, spec.lists[m]))
+        else:
+            body_st.env[m] = havoc_value(body_st, m, body_st.env[m])
+    if spec.havoc:
+        spec.havoc(eng, body_st)   # ghost state written by the body (through modelled callees)
+    body_st.assume(k >= 0)
+    for _, t in inv_at(body_st):
+        body_st.assume(t)
+    body_st.obligations.append((f"{key}#{spec.name}.step_hypotheses_consistent", ("reachable", list(body_st.pc))))
+
+    def variant_at(s):
+        f = eng.spec_fun(spec.variant)
+        rs = [(s2, v) for s2, v in eng.call(s.fork(), f, [VInt(k)] + [get(s, v) for v in spec.vars], {}, "spec") if not isinstance(v, Raise)]
+        if len(rs) != 1:
+            raise Unsupported("loop variant must be a single integer expression")
+        return S.to_int_term(rs[0][1])
+
+    v0 = variant_at(body_st) if spec.variant else None
+    outs = []
+    for s2, c in eng.ev(stmt.test, body_st):
+        if isinstance(c, Raise):
+            outs.append(Outcome("raise", s2, c.exc))
+            continue
+        for s3, taken in eng.fork_truth(s2, c):
+            if not taken:
+                outs.extend(eng.exec_block(stmt.orelse, s3) if stmt.orelse else [Outcome("normal", s3)])
+                continue
+            for b in eng.exec_block(stmt.body, s3):
+                if b.kind in ("normal", "continue"):
+                    oblige(b.st, "preserved")
+                    if v0 is not None:
+                        v1 = variant_at(b.st)
+                        b.st.obligations.append((f"{key}#{spec.name}.variant_decreases_on_every_back_edge", z3.And(v1 >= 0, v1 < v0)))
+                    outs.append(Outcome("loop-end", b.st))
+                elif b.kind == "break":
+                    outs.append(Outcome("normal", b.st))
+                else:
+                    outs.append(b)
+    return outs
+
+
 def exec_while(eng, stmt, st, bound=64):
     """while: unrolled while the test is decided by the path condition (concrete control), else needs a spec."""
+    fn_name = eng.func_stack[-1] if eng.func_stack else "?"
+    wkey = f"{fn_name}@while[{ast.unparse(stmt.test)}]"
+    if wkey in eng.loop_specs:
+        return _while_with_invariant(eng, stmt, st, eng.loop_specs[wkey], wkey)
     outs = []
     live = [st]
     for it in range(bound + 1):
